@@ -1,7 +1,7 @@
 CONSTANTS MaxWraps = 4
           LastOnlyFrom = 4
           MaxChain = 4
-          MaxCalls = 5
+          MaxCalls = 4
           Wide = FALSE
           FixedCode = TRUE
           Modes = {"bind", "heap", "memo", "chain"}
